@@ -132,7 +132,7 @@ def analyse(res, asm, r):
             continue
         cnt = {}
         for cl in fn['clauses']:
-            if cl['kind'] in ('ensures', 'invariant', 'decreases', 'invariant_except_break', 'ensures_on_break', 'returns'):
+            if cl['kind'] in ('ensures', 'invariant', 'decreases', 'invariant_except_break', 'ensures_on_break', 'returns', 'assert'):
                 cnt[cl['kind']] = cnt.get(cl['kind'], 0) + 1
                 cl['id'] = clause_id(unit, cl, cnt[cl['kind']])
                 obl.append({'id': cl['id'], 'fn': fn['path'], 'kind': cl['kind'], 'where': cl['where'], 'text': cl['text'][:240], 'status': 'unknown', 'backend': 'verus/z3'})
@@ -175,7 +175,11 @@ def analyse(res, asm, r):
                 oid = '%s::%s::call-pre(%s)' % (unit, fn['path'], lab)
         if oid is None and fn:
             if org[0] == 'tpl' and kind == 'assertion':
-                oid = '%s::%s::hint-assert@tpl%d' % (unit, fn['path'], org[1])
+                lm = re.search(r'/\*\s*(C\d\d\.[A-Za-z0-9_.\-]+)\s*\*/', text)
+                if lm:
+                    oid = '%s::%s::%s' % (unit, fn['path'], lm.group(1))
+                else:
+                    oid = '%s::%s::hint-assert@tpl%d' % (unit, fn['path'], org[1])
             else:
                 oid = '%s::%s::safety(%s)' % (unit, fn['path'], kind)
         if oid is None:
